@@ -357,7 +357,7 @@ class Cfg:
 
 
 # quick tier: what a corpus universe marked LIGHT is generated with (the stress universe meets every configuration)
-LIGHT_CONFIGS = ("c/default", "c/omit", "cpp/c++14", "cpp/c++17+omit", "cpp/c++20", "cpp/c++17-pmr+omit", "py/default", "py/omit")
+LIGHT_CONFIGS = ("c/default", "c/omit", "c/little", "cpp/c++14", "cpp/c++17+omit", "cpp/c++20", "cpp/c++17-pmr+omit", "py/default", "py/omit")
 
 
 def configurations(quick):
@@ -369,11 +369,12 @@ def configurations(quick):
     cs.append(Cfg("c/omit", "c", [], omit=True))
     cs.append(Cfg("c/allopts", "c", all_opts))
     cs.append(Cfg("c/nofloat", "c", nofloat))
+    cs.append(Cfg("c/big", "c", ["--target-endianness", "big"]))
+    cs.append(Cfg("c/little", "c", ["--target-endianness", "little"]))
     cs.append(Cfg("c/nostd+omit", "c", [], omit=True, overrides={"use_standard_types": False}))
     if not quick:
         cs.append(Cfg("c/nostd", "c", [], overrides={"use_standard_types": False}))
         cs.append(Cfg("c/big+asserts", "c", ["--target-endianness", "big", "--enable-serialization-asserts"]))
-        cs.append(Cfg("c/little", "c", ["--target-endianness", "little"]))
         cs.append(Cfg("c/ovr", "c", ["--enable-override-variable-array-capacity"]))
         cs.append(Cfg("c/nofloat+allopts", "c", nofloat + all_opts))
         cs.append(Cfg("c/sysinc", "c", [], overrides={"prefer_system_includes": True}))
@@ -385,6 +386,8 @@ def configurations(quick):
         if not quick or std != "c++20":
             cs.append(Cfg(f"cpp/{std}+omit", "cpp", [], std=std, omit=True))
     cs.append(Cfg("cpp/c++14+allopts", "cpp", all_opts, std="c++14"))
+    cs.append(Cfg("cpp/c++17+big", "cpp", ["--target-endianness", "big"], std="c++17"))
+    cs.append(Cfg("cpp/c++20+little", "cpp", ["--target-endianness", "little"], std="c++20"))
     if not quick:
         cs.append(Cfg("cpp/c++17+nofloat", "cpp", nofloat, std="c++17"))
     # CETL is not available offline: generated and scanned, not compiled
@@ -848,7 +851,7 @@ def run(ctx: common.Ctx):
             if c.only and c.only not in u.name:
                 continue
             # quick tier: the corpus meets every configuration; a generated universe the three basic ones and every second of the rest
-            if quick and u.origin != "corpus" and c.ident not in ("c/default", "cpp/c++17", "py/default") and (ci + ui) % 2:
+            if quick and u.origin != "corpus" and c.ident not in ("c/default", "c/little", "cpp/c++17", "py/default") and (ci + ui) % 2:
                 continue
             if quick and getattr(u, "light", False) and c.ident not in LIGHT_CONFIGS:
                 continue
